@@ -113,6 +113,8 @@ type workerResult struct {
 	Enumerated  int                  `json:"enumerated,omitempty"`
 	Scheds      []uint64             `json:"scheds,omitempty"`
 	SkipReasons map[string]int       `json:"skip_reasons,omitempty"`
+	Sites       []int                `json:"sites,omitempty"`
+	NumSites    int                  `json:"num_sites,omitempty"`
 }
 
 // ---- known findings
@@ -370,6 +372,8 @@ func fanOut(bin, dir, prop, tier string, seed uint64, total, nproc int, knownPat
 type aggregate struct {
 	runs, skipped, nontriv, ops, steps, checks, enumerated int
 	skips                                                  map[string]int
+	sites                                                  map[int]bool
+	numSites                                               int
 	faults, probes, extra                                  map[string]int
 	shapes, scheds                                         map[uint64]bool
 	samples                                                []sample
@@ -410,6 +414,15 @@ func aggregateResults(rs []*workerResult) aggregate {
 		}
 		for _, h := range r.Scheds {
 			a.scheds[h] = true
+		}
+		for _, s := range r.Sites {
+			if a.sites == nil {
+				a.sites = map[int]bool{}
+			}
+			a.sites[s] = true
+		}
+		if r.NumSites > a.numSites {
+			a.numSites = r.NumSites
 		}
 		for k, v := range r.SkipReasons {
 			if a.skips == nil {
